@@ -1,8 +1,10 @@
 package props
 
 import (
+	"context"
 	"encoding/json"
 	"fmt"
+	"grol.io/grol/repl"
 	"strings"
 	"time"
 
@@ -111,6 +113,9 @@ var c10Failing = []string{
 	`for zi = 2 {zz_boom(zi)}`,
 	`for zi = 2 {for zj = 1:3 {zz_boom2(zi, zj)}}`,
 	`zz_boom2(1, 2)`,
+	// a Go runtime error (not a string panic) raised inside a call whose parameters must not stay visible afterwards
+	`((zsecret, zn) => verif_rtpanic())("s3", 1)`,
+	`(zsecret => { for zi = 2 { (zs2 => verif_rtpanic())(zi) } })("s4")`,
 }
 
 // c10Setup are succeeding inputs every random session starts with.
@@ -129,13 +134,35 @@ func (p c10) run(inputs []string, failing []bool, depth int) []runOut {
 	default:
 		ss.s.MaxDepth = depth
 	}
+	// every input goes through the REPL's own entry point (repl.EvalOne: parse, macros, evaluation, panic recovery),
+	// so that what it does after a failure is part of what is observed
+	opts := repl.EvalStringOptions()
+	opts.MaxDepth = ss.s.MaxDepth
 	outs := make([]runOut, len(inputs))
 	for i, in := range inputs {
 		d := 5 * time.Second
 		if failing != nil && failing[i] && c10IsDeadline(in) {
 			d = 5 * time.Millisecond
 		}
-		outs[i] = ss.eval(in, d)
+		opts.MaxDuration = d
+		ss.out.Reset()
+		started := time.Now()
+		_, panicked, errs, _ := repl.EvalOne(context.Background(), ss.s, in, ss.out, opts)
+		o := runOut{printed: ss.out.String(), elapsed: time.Since(started)}
+		all := strings.Join(errs, " | ")
+		switch {
+		case panicked:
+			o.isErr, o.panicked = true, all
+		case len(errs) > 0:
+			o.isErr, o.errMsg = true, all
+			if strings.Contains(all, "context deadline exceeded") {
+				o.timedOut = true
+			}
+			if strings.Contains(all, "parser error") || strings.Contains(all, "parse error") {
+				o.parseErr = all
+			}
+		}
+		outs[i] = o
 	}
 	return outs
 }
@@ -260,7 +287,7 @@ func (p c10) RunBatch(c *fw.Ctx) {
 			failing = append(failing, false)
 		}
 		// always end with observations that exercise output, loops, calls and depth
-		for _, obs := range []string{`println("still", "here")`, `for zq = 3 {print(zq)}`, `for q1 = 1 {for q2 = 1 {for q3 = 1 {for q4 = 1 {for q5 = 1 {for q6 = 1 {for q7 = 1 {for q8 = 1 {print(q8)}}}}}}}}`, `[catch(q1).err, catch(q4).err, catch(q8).err]`, fmt.Sprintf(`func zz_d(n) {if n <= 0 {return 0}; 1 + zz_d(n - 1)}; zz_d(%d)`, maxRec)} {
+		for _, obs := range []string{`println("still", "here")`, `for zq = 3 {print(zq)}`, `for q1 = 1 {for q2 = 1 {for q3 = 1 {for q4 = 1 {for q5 = 1 {for q6 = 1 {for q7 = 1 {for q8 = 1 {print(q8)}}}}}}}}`, `[catch(q1).err, catch(q4).err, catch(q8).err]`, `[catch(zsecret).err, catch(zn).err, catch(zs2).err]`, fmt.Sprintf(`func zz_d(n) {if n <= 0 {return 0}; 1 + zz_d(n - 1)}; zz_d(%d)`, maxRec)} {
 			plus = append(plus, obs)
 			failing = append(failing, false)
 		}
